@@ -107,6 +107,11 @@ pub fn check(sc: &Scenario, res: &RunResult) -> Vec<Violation> {
                 Some(c) if c - page <= GUARD + 0x1000 => {
                     if start != c {
                         out.push(v("C06", "guard-stack-wrong-start", format!("thread {}: stack pointer {:#x} unmapped; region starts at {:#x}, first plausible mapping above is {:#x}", tid, sp, start, c)));
+                    } else if let Some((_, hi)) = util::mapping_hull(w, c) {
+                        // the region is (part of) that mapping: it does not run on into whatever is mapped behind it
+                        if start + size > hi {
+                            out.push(v("C06", "guard-stack-beyond-mapping", format!("thread {}: region {:#x}+{} runs past the end {:#x} of the mapping it begins in", tid, start, size, hi)));
+                        }
                     }
                 }
                 _ => {
